@@ -678,10 +678,40 @@ class Emitter:
         body, cond = ks[0], ks[1]
         b = self.loop_body(body, no)
         self.nohoist += 1
-        c = self.expr(cond)
-        self.nohoist -= 1
+        try:
+            c = self.expr(cond)
+        except Unsupported as ex:
+            if 'hoisting is not possible' not in str(ex):
+                raise
+            c = None
+        finally:
+            self.nohoist -= 1
+        if c is None:
+            # the condition needs temporaries (e.g. `++itr != map.end()`): evaluate it at the end of the body into a flag;
+            # a `continue` in the body would skip that evaluation, so it is refused
+            def has_continue(x, depth=0):
+                if not isinstance(x, dict):
+                    return False
+                if x.get('kind') == 'ContinueStmt':
+                    return True
+                if x.get('kind') in ('ForStmt', 'WhileStmt', 'DoStmt', 'CXXForRangeStmt') and depth > 0:
+                    return False
+                return any(has_continue(y, depth + 1) for y in x.get('inner', []))
+            if has_continue(body):
+                raise Unsupported('do-while whose condition needs temporaries and whose body has continue')
+            pre, c2 = self.with_pre(lambda: self.expr(cond))
+            flag = '__dc%d' % no
+            assert b[-1] == '}'
+            b = b[:-1] + ['  ' + l for l in pre] + ['  %s = %s;' % (flag, c2), '}']
+            self.rules['do_while_condition_flag'] += 1
+            lc = self.loop_contract(no)
+            out = ['{', '  _Bool %s;' % flag, '  do'] + ['  ' + l for l in lc] + ['  ' + l for l in b] + ['  while (%s);' % flag]
+            ga = self.ghost('loop%d.after' % no)
+            if ga:
+                out.append('  ' + ga)
+            return out + ['}']
         lc = self.loop_contract(no)
-        out = ['do'] + b + ['while (%s)' % c] + lc + [';']
+        out = ['do'] + lc + b + ['while (%s);' % c]      # cbmc accepts loop contracts of a do-while only between `do` and the body
         ga = self.ghost('loop%d.after' % no)
         if ga:
             out.append(ga)
@@ -1289,7 +1319,14 @@ class Emitter:
             obj, pmf = self.kids(me)
             oe = self.expr(obj)
             oaddr = oe if me['opcode'] == '->*' else (oe[2:-1] if (oe.startswith('(*') and oe.endswith(')') and self._balanced(oe[2:-1])) else '&(%s)' % oe)
-            argl = [oaddr, self.expr(pmf)] + [self.expr(a) for a in ks[1:]]
+            pt = self.tstr(pmf['type'])
+            mm = re.match(r'^(.*?)\((?:[\w:<>, ]+)::\*\)\s*\((.*)\)[^()]*$', pt)
+            if mm and '&' in mm.group(2):
+                # reference parameters of the pointed-to member function: pass addresses, exactly as for a direct call
+                psig = '%s(%s)' % (mm.group(1), mm.group(2))
+                argl = [oaddr, self.expr(pmf)] + self.args_for(psig, ks[1:], self.spec['ptr_to_member_call'])
+            else:
+                argl = [oaddr, self.expr(pmf)] + [self.expr(a) for a in ks[1:]]
             return self.finish_call(self.spec['ptr_to_member_call'], argl, n, stmt, self.tstr(n['type']) + ' ()')
         if me['kind'] != 'MemberExpr':
             raise Unsupported('member call through ' + me['kind'])
